@@ -1,0 +1,37 @@
+//go:build verif
+// +build verif
+
+package groups
+
+import "time"
+
+// VerifFillSnapshot is the FillCache's state as the verification harness reads it (build tag verif).
+type VerifFillSnapshot struct {
+	Cache    map[string]MemberSet
+	Inflight []string
+	Loops    []string
+}
+
+// VerifSnapshot copies the cache, the in-flight set and the refresh-loop set under the lock.
+func (c *FillCache) VerifSnapshot() VerifFillSnapshot {
+	c.mu.RLock()
+	defer c.mu.RUnlock()
+	s := VerifFillSnapshot{Cache: make(map[string]MemberSet, len(c.cache))}
+	for g, ms := range c.cache {
+		cp := make(MemberSet, len(ms))
+		for m := range ms {
+			cp[m] = struct{}{}
+		}
+		s.Cache[g] = cp
+	}
+	for g := range c.inflight {
+		s.Inflight = append(s.Inflight, g)
+	}
+	for g := range c.refreshLoopGroups {
+		s.Loops = append(s.Loops, g)
+	}
+	return s
+}
+
+// VerifSetMaxJitter sets the start-up jitter of RefreshLoop (the field is otherwise only set by tests).
+func (c *FillCache) VerifSetMaxJitter(d time.Duration) { c.maxJitter = d }
